@@ -125,6 +125,11 @@ def run(ctx, b, broken):
             "typedef-uses": "typedef int T; " + " ".join(f"T t{i}; T *p{i};" for i in range(k)),
             "call-args": "void f(void){ g(" + ", ".join(f"a{i}" for i in range(4 * k)) + "); }",
             "else-if-chain": "void f(int x){ " + " ".join(f"if (x == {i}) a = {i}; else" for i in range(k // 4)) + " a = 0; }",
+            # one specifier (with a body) shared by many declarators: the shared part must not be re-processed per declarator
+            "struct-body-many-declarators": "struct { " + " ".join(f"int m{i};" for i in range(k)) + " } " + ", ".join(f"v{i}" for i in range(k)) + ";",
+            "enum-body-many-declarators": "enum { " + ", ".join(f"E{i}" for i in range(k)) + " } " + ", ".join(f"*w{i}" for i in range(k)) + ";",
+            "typedef-struct-many-names": "typedef struct Tag { " + " ".join(f"char c{i};" for i in range(k)) + " } " + ", ".join(f"T{i}" for i in range(k)) + ";",
+            "prototype-many-parameters-many-declarators": "int " + ", ".join(f"f{i}(int a, char *b, long c)" for i in range(k)) + ";",
         }
     import subprocess, sys as _sys
 
@@ -134,7 +139,8 @@ def run(ctx, b, broken):
         return json.loads(p.stdout) if p.returncode == 0 else [[-1.0, 0]] * len(texts)
     K = 1200 if ctx.tier == "quick" else 3000
     MULT = {"linemarkers": 8, "line-directives": 10, "pragmas": 10, "big-switch": 3, "switch-label-runs": 4, "big-struct": 4, "big-enum": 6, "big-initlist": 4,
-            "big-block": 4, "string-concat": 15, "wstring-concat": 15, "many-functions": 2, "array-dims": 2, "typedef-uses": 4, "call-args": 5, "else-if-chain": 1}
+            "big-block": 4, "string-concat": 15, "wstring-concat": 15, "many-functions": 2, "array-dims": 2, "typedef-uses": 4, "call-args": 5, "else-if-chain": 1,
+            "struct-body-many-declarators": 1, "enum-body-many-declarators": 1, "typedef-struct-many-names": 1, "prototype-many-parameters-many-declarators": 1}
     names = list(timed(4))
     small = {n_: timed(K * MULT[n_])[n_] for n_ in names}
     large = {n_: timed(2 * K * MULT[n_])[n_] for n_ in names}
